@@ -158,7 +158,7 @@ def lat_states(tier, seed):
     n_sh = 64
     out = []
     if tier == "thorough":
-        plan = [(kind, pm, list(range(len(LAT_C)))) for kind in ("hull", "mesh") for pm in range(24)]
+        plan = [(kind, pm, list(range(len(LAT_C)))) for kind in ("hull", "mesh") for pm in (0, 5, 9, 14, 18, 23)]
     else:
         # quick: every tetrahedron, one seed-selected vertex order per collider kind, the first five centres
         plan = [("hull", (7 * seed) % 24, list(range(5))), ("mesh", (7 * seed + 23) % 24, list(range(5)))]
